@@ -1020,7 +1020,7 @@ class NodeBase(ABC):
         :meta category: Methods to iterate over related node
         """
         parent = self.parent
-        if parent:
+        if parent is not None:
             if all(f(parent) for f in filter):
                 yield parent
             yield from parent.iterate_ancestors(*filter)
@@ -1954,7 +1954,7 @@ class TagNode(_ElementWrappingNode, NodeBase):
     def depth(self) -> int:
         result = 0
         node = self
-        while node.parent:
+        while node.parent is not None:
             node = node.parent
             result += 1
         return result
